@@ -270,6 +270,11 @@ Definition sw_render_enum (e : sw_enum) : str :=
   match swe_tagged e with
   | None => flat_map sw_render_unit_case vs
   | Some (tag_key, content_key) =>
+    (* swift.rs:490 / :591 (write_enum and write_enum_variants both shadow the keys): they are written as
+       enum cases and member accesses, a Swift keyword gets backticks; the raw value of the case, i.e. the
+       wire key, stays the bare key ([swe_tagged], read by [sw_obs_enum]) *)
+    let tag_key := swift_keyword_aware_rename tag_key in
+    let content_key := swift_keyword_aware_rename content_key in
     flat_map sw_render_case vs ++
     (match vs with [] => [] | _ => sw_render_coding_keys_block (map sw_render_coding_key vs) end) ++
     sw_line 1 (lit "private enum ContainerCodingKeys: String, CodingKey {") ++
